@@ -248,6 +248,11 @@ func newPrelude() *Prelude {
 	p.add("(declare-fun str_at (Str Int) (_ BitVec 8))")
 	p.add("(declare-fun str_lt (Str Str) Bool)")
 	p.add("(declare-fun str_lit (Int) Str)")
+	p.add("(assert (forall ((i Int) (j Int)) (! (=> (= (str_lit i) (str_lit j)) (= i j)) :pattern ((str_lit i) (str_lit j)))))")
+	p.add("(assert (= (str_len str_empty) 0))")
+	p.add("(assert (forall ((s Str)) (! (>= (str_len s) 0) :pattern ((str_len s)))))")
+	p.add("(assert (forall ((a Str) (b Str)) (! (= (str_len (str_cat a b)) (+ (str_len a) (str_len b))) :pattern ((str_cat a b)))))")
+	p.add("(assert (forall ((a Str) (b Str) (c Str)) (! (=> (= (str_cat a b) (str_cat a c)) (= b c)) :pattern ((str_cat a b) (str_cat a c)))))")
 	p.add("(declare-fun str_of_rune ((_ BitVec 32)) Str)")
 	// int <-> bitvector bridges (machine ints treated as mathematical; listed as an assumption)
 	p.add("(declare-fun i2bv64 (Int) (_ BitVec 64))")
